@@ -52,7 +52,7 @@ func C14(r *ev.Report) {
 	}
 
 	ks := alpha.Scalars(level)
-	for _, v := range alpha.Values(ref.N, level) {
+	for _, v := range alpha.WithWitnesses(alpha.Values(ref.N, level), ref.N) {
 		ks = append(ks, v.V)
 	}
 
